@@ -13,7 +13,7 @@
 
 Size-abstract Arrow model (shared with C11): a batch carries ``num_rows``, ``schema``, logical size
 ``L = get_total_buffer_size()`` and framed size ``F = L + gap`` with ``gap >= GAP_MIN`` (IPC message
-prefix); a writer adds ``H`` for the schema message, ``F`` per batch and ``EOS`` on close; sinks only
+prefix); a writer adds ``H`` for the schema message (lazily, as pyarrow does), ``F`` per batch and ``EOS`` on close; sinks only
 count bytes.  The inequalities are validated against real pyarrow on 50 concrete batches at import.
 """
 
@@ -54,8 +54,9 @@ ENCODED = [
 _SZ = pick(4095, 10**6)
 BOUNDS = (
     "(a) unbounded ints/None; (b)-(d) all sizes/caps/thresholds symbolic ints 0..%d (caps also None), framing gap >= 8 "
-    "symbolic; unary/exchange: one data batch + 0/1 log batch; producer turn: <= %d ticks, 0/1 log on the first"
-) % (_SZ, pick(2, 3))
+    "symbolic; unary/exchange: one data batch + 0/1 log batch; producer turn: <= %d ticks, 0/1 log on the first "
+    "(external-cap item: sizes 0..%d)"
+) % (_SZ, pick(2, 3), pick(99, 999))
 OUTSIDE = (
     "real IPC framing sizes (model: F = L + gap, gap >= 8, validated on samples; sliced batches whose buffers are larger "
     "than what IPC writes are outside); compression of externalised payloads (cap arithmetic uses the pre-compression size); "
@@ -81,7 +82,9 @@ HOLD: dict = {}
 
 def reset(H: int = 8, Z: int = 8, E: int = 8, P: int = 8, LOGF: int = 8) -> None:
     HOLD.clear()
-    HOLD.update(H=H, Z=Z, E=E, P=P, LOGF=LOGF, sinks=[], uploads=[], starts=[], minted=[], errors=[])
+    HOLD.update(H=H, Z=Z, E=E, P=P, LOGF=LOGF, sinks=[], uploads=[], uploads_L=[], starts=[], minted=[], errors=[])
+    ext._current_externalized_bytes.set(0)  # per-call counter (a stale symbolic value must not leak between paths)
+    rsp._current_response_status.set(HTTPStatus.OK)
 
 
 class FSchema:
@@ -152,20 +155,27 @@ class FWriter:
     def __init__(self, sink, schema):  # type: ignore[no-untyped-def]
         if not isinstance(sink, FSink) or not isinstance(schema, FSchema):
             raise HarnessModelError("writer over a foreign sink/schema")
-        self.sink, self.schema, self.closed = sink, schema, False
-        sink.pos = sink.pos + HOLD["H"]
-        sink.log.append(("schema", schema, None))
+        self.sink, self.schema, self.closed, self.started = sink, schema, False, False
+
+    def _start(self) -> None:
+        # pyarrow writes the schema message lazily: with the first batch, or on close
+        if not self.started:
+            self.started = True
+            self.sink.pos = self.sink.pos + HOLD["H"]
+            self.sink.log.append(("schema", self.schema, None))
 
     def write_batch(self, batch, custom_metadata=None):  # type: ignore[no-untyped-def]
         if self.closed or not isinstance(batch, FBatch):
             raise HarnessModelError("write_batch on closed writer / foreign batch")
         if batch.schema != self.schema:
             raise HarnessModelError("batch schema differs from the stream schema")
+        self._start()
         self.sink.pos = self.sink.pos + batch.F
         self.sink.log.append(("batch", batch, custom_metadata))
 
     def close(self) -> None:
         if not self.closed:
+            self._start()
             self.closed = True
             self.sink.pos = self.sink.pos + EOS
             self.sink.log.append(("eos", None, None))
@@ -229,9 +239,17 @@ class _IdealHashlib:
         return self._H()
 
 
+def _sum(xs):  # type: ignore[no-untyped-def]
+    t = 0
+    for x in xs:
+        t = t + x
+    return t
+
+
 class RecStorage:
     def upload(self, data, schema, *, content_encoding=None):  # type: ignore[no-untyped-def]
         HOLD["uploads"].append(len(data))
+        HOLD["uploads_L"].append(_sum([e[1].L for e in data.log if e[0] == "batch" and e[1].kind == "data"]))
         return "https://storage.invalid/blob/1"
 
 
@@ -301,15 +319,18 @@ def _validate_model() -> None:
             else:
                 cols["c%d" % c] = _pa.array([None] * n, type=_pa.null())
         batch = _pa.RecordBatch.from_pydict(cols) if cols else _pa.RecordBatch.from_pydict({}, schema=_pa.schema([]))
+        empty = _RealBytesIO()
+        new_ipc_stream(empty, batch.schema).close()
+        h = empty.tell() - EOS  # schema message (written lazily: nothing before the first batch / close)
         buf = _RealBytesIO()
         w = new_ipc_stream(buf, batch.schema)
-        h = buf.tell()
+        lazy = buf.tell() == 0
         w.write_batch(batch)
         f = buf.tell() - h
         w.close()
         e = buf.tell() - h - f
         L = batch.get_total_buffer_size()
-        if not (f >= L + GAP_MIN and h >= 8 and e == EOS):
+        if not (lazy and f >= L + GAP_MIN and h >= 8 and e == EOS):
             raise HarnessModelError(f"size-abstract Arrow model refuted by pyarrow: rows={n} L={L} F={f} H={h} EOS={e}")
 
 
@@ -399,13 +420,237 @@ def budgets_raise_iff_over_cap_plain_ints(wire_b: int, ext_b: int, wire_cap: int
     return got == want
 
 
+
+# ---------------------------------------------------------------------------
+# real rig for replays: real server (falcon test client), real pyarrow, the repository's fake storage over loopback
+# ---------------------------------------------------------------------------
+
+from dataclasses import dataclass  # noqa: E402
+from typing import Protocol  # noqa: E402
+
+from vgi_rpc.rpc import AnnotatedBatch, CallContext, ExchangeState, OutputCollector, ProducerState, Stream  # noqa: E402
+
+_RSCHEMA = _pa.schema([_pa.field("v", _pa.int64())])
+_REAL: dict = {"rows": [512], "fin_same": False, "log": False}
+
+
+def _rbatch(rows: int) -> _pa.RecordBatch:
+    return _pa.RecordBatch.from_pydict({"v": list(range(rows))}, schema=_RSCHEMA)
+
+
+@dataclass
+class RProd(ProducerState):
+    i: int = 0
+
+    def produce(self, out: OutputCollector, ctx: CallContext) -> None:
+        script = _REAL["rows"]
+        if self.i >= len(script):
+            out.finish()
+            return
+        if _REAL["log"] and self.i == 0:
+            out.client_log(Level.INFO, "note")
+        out.emit(_rbatch(script[self.i]))
+        self.i += 1
+        if _REAL["fin_same"] and self.i == len(script):
+            out.finish()
+
+
+@dataclass
+class RExch(ExchangeState):
+    n: int = 0
+
+    def exchange(self, input: AnnotatedBatch, out: OutputCollector, ctx: CallContext) -> None:
+        if _REAL["log"]:
+            out.client_log(Level.INFO, "note")
+        out.emit(_rbatch(_REAL["rows"][0]))
+
+
+class RSvc(Protocol):
+    def gen(self) -> Stream[RProd]: ...
+
+    def xch(self) -> Stream[RExch]: ...
+
+    def una(self) -> list[int]: ...
+
+
+class RImpl:
+    def gen(self) -> Stream[RProd]:
+        return Stream(output_schema=_RSCHEMA, state=RProd())
+
+    def xch(self) -> Stream[RExch]:
+        return Stream(output_schema=_RSCHEMA, state=RExch(), input_schema=_RSCHEMA)
+
+    def una(self) -> list[int]:
+        return list(range(_REAL["rows"][0]))
+
+
+class _Tap:
+    """Wraps the test client: per response, body length, error flag and the uploads it caused."""
+
+    def __init__(self, inner, sizes):  # type: ignore[no-untyped-def]
+        self.inner, self.sizes, self.responses = inner, sizes, []
+        self.prefix = getattr(inner, "prefix", "")
+
+    def post(self, url, *, content, headers):  # type: ignore[no-untyped-def]
+        before = len(self.sizes)
+        r = self.inner.post(url, content=content, headers=headers)
+        flagged = any(k.lower() == "x-vgi-rpc-error" for k in r.headers)
+        self.responses.append({"url": url, "body": len(r.content), "status": r.status_code, "error": flagged or r.status_code >= 400,
+                               "uploads": list(self.sizes[before:]), "content": r.content})
+        return r
+
+    def __getattr__(self, name):  # type: ignore[no-untyped-def]
+        return getattr(self.inner, name)
+
+
+def _real_run(kind: str, base_url: str, threshold, wire_cap, ext_cap, with_storage: bool = True):  # type: ignore[no-untyped-def]
+    """One real call; returns the tapped responses (init/exchange/unary posts)."""
+    from vgi_rpc.conformance.fake_storage import FakeStorageBackend
+    from vgi_rpc.external import ExternalLocationConfig
+    from vgi_rpc.http import http_connect
+    from vgi_rpc.http._testing import make_sync_client
+    from vgi_rpc.rpc import RpcServer
+
+    backend = FakeStorageBackend(base_url)
+    sizes: list[int] = []
+
+    class Counting:
+        def upload(self, data, sch, *, content_encoding=None):  # type: ignore[no-untyped-def]
+            sizes.append(len(data))
+            return backend.upload(data, sch, content_encoding=content_encoding)
+
+    server = RpcServer(RSvc, RImpl(), external_location=ExternalLocationConfig(
+        storage=Counting() if with_storage else None, externalize_threshold_bytes=threshold, url_validator=None))  # type: ignore[arg-type]
+    client = _Tap(make_sync_client(server, token_key=b"0123456789abcdef0123456789abcdef", max_response_bytes=wire_cap,
+                                   max_externalized_response_bytes=ext_cap, compression_level=None), sizes)
+    err = None
+    try:
+        with http_connect(RSvc, client=client, external_location=ExternalLocationConfig(url_validator=None), compression_level=None) as proxy:  # type: ignore[arg-type]
+            if kind == "unary":
+                proxy.una()
+            elif kind == "exchange":
+                with proxy.xch() as sess:
+                    sess.exchange(AnnotatedBatch(batch=_rbatch(1)))
+            else:
+                for _ab in proxy.gen():
+                    pass
+    except Exception as e:  # noqa: BLE001
+        err = e
+    suffix = {"unary": "/una", "exchange": "/xch/exchange", "producer": "/gen/"}[kind]
+    return [r for r in client.responses if suffix in r["url"]], err
+
+
+def _real_sweep(kind: str, rows: list[int], fin_same: bool = False, log: bool = False) -> str | None:
+    """Caps placed on and next to the real logical / framed / body sizes; returns the first violated response."""
+    from vgi_rpc.conformance.fake_storage import serve_in_thread
+
+    _REAL.update(rows=rows, fin_same=fin_same, log=log)
+    L = sum(_rbatch(r).get_total_buffer_size() for r in rows)
+    Lmin = min(_rbatch(r).get_total_buffer_size() for r in rows)
+    base, shutdown = serve_in_thread()
+    try:
+        big = 64 * 1024 * 1024
+        # dry runs: framed upload size with everything externalised; inline body size with storage off
+        dry, _ = _real_run(kind, base, 0, big, None)
+        F = sum(sum(r["uploads"]) for r in dry)
+        inline, _ = _real_run(kind, base, 0, big, None, with_storage=False)
+        body = max(r["body"] for r in inline)
+        ptr_body = max(r["body"] for r in dry)
+        for thr in (0, Lmin, Lmin + 1):
+            for ext_cap in (None, L - 1, L, F - 1, F):
+                for wire_cap in ((big,) if kind == "producer" else (None, ptr_body - 1, ptr_body, body - 1, body)):
+                    resps, err = _real_run(kind, base, thr, wire_cap, ext_cap)
+                    for r in resps:
+                        if r["error"]:
+                            continue
+                        up = sum(r["uploads"])
+                        if ext_cap is not None and up > ext_cap:
+                            return (f"real {kind} call (batches of {rows} int64 rows, logical {L} B, framed upload {F} B; threshold={thr}, "
+                                    f"max_externalized_response_bytes={ext_cap}, max_response_bytes={wire_cap}): a successful response "
+                                    f"({r['url']}, status {r['status']}, no error flag) uploaded {up} bytes > cap")
+                        if kind != "producer" and wire_cap is not None and r["body"] > wire_cap:
+                            return (f"real {kind} call: successful response body {r['body']} B > max_response_bytes={wire_cap} "
+                                    f"(threshold={thr}, ext_cap={ext_cap})")
+        return None
+    finally:
+        shutdown()
+
+
+def _message_ends(body: bytes) -> list[int]:
+    """End offset of every IPC message of the (single) stream in ``body``."""
+    from pyarrow import ipc
+
+    src = _pa.BufferReader(body)
+    rd = ipc.MessageReader.open_stream(src)
+    ends: list[int] = []
+    while True:
+        try:
+            rd.read_next_message()
+        except StopIteration:
+            return ends
+        ends.append(src.tell())
+
+
+def _replay_producer_body(args: dict) -> str | None:
+    """Real producer (3 ticks, no logs, inline): with the cap on / next to every message boundary, each data batch
+    after the first of a turn must start below the cap."""
+    from vgi_rpc.conformance.fake_storage import serve_in_thread
+
+    _REAL.update(rows=[64, 64, 64], fin_same=bool(args.get("fin_same")), log=False)
+    base, shutdown = serve_in_thread()
+    try:
+        dry, _ = _real_run("producer", base, 10**9, 64 * 1024 * 1024, None, with_storage=False)
+        ends = _message_ends(dry[0]["content"])
+        for cap in sorted({max(1, e + d) for e in ends for d in (-1, 0, 1)}):
+            resps, _err = _real_run("producer", base, 10**9, cap, None, with_storage=False)
+            for r in resps:
+                if r["error"]:
+                    continue
+                e = _message_ends(r["content"])
+                # e[0] schema; e[1:] batches.  Batch j (j >= 2) starts at e[j-1]; the trailing sentinel is exempt.
+                has_sentinel = r is not resps[-1] or not _REAL["fin_same"]
+                n_batches = len(e) - 1
+                last_data = n_batches - (1 if (has_sentinel and n_batches >= 1 and r["url"].endswith(("/init", "/exchange")) and _ends_with_sentinel(r["content"])) else 0)
+                for j in range(2, last_data + 1):
+                    if not (e[j - 1] < cap):
+                        return (f"real producer turn ({r['url']}) with max_response_bytes={cap}: data batch #{j} was produced although the body "
+                                f"already held {e[j - 1]} bytes (>= cap); body is {len(r['content'])} bytes")
+        return None
+    finally:
+        shutdown()
+
+
+def _ends_with_sentinel(body: bytes) -> bool:
+    from pyarrow import ipc
+
+    rd = ipc.open_stream(_RealBytesIO(body))
+    last = None
+    while True:
+        try:
+            last = rd.read_next_batch_with_custom_metadata()
+        except StopIteration:
+            break
+    return last is not None and last[0].num_rows == 0 and last[1] is not None and last[1].get(STATE_KEY) is not None
+
+
+def _replay_exchange_caps(args: dict) -> str | None:
+    return _real_sweep("exchange", [512], log=bool(args.get("nlog")))
+
+
+def _replay_unary_caps(args: dict) -> str | None:
+    return _real_sweep("unary", [512])
+
 # ---------------------------------------------------------------------------
 # (b) prediction vs actual upload
 # ---------------------------------------------------------------------------
 
 
-def _real_replay_predict(collector: bool, rows: int, threshold: int, with_storage: bool) -> tuple[int, list[int]]:
-    """Real pyarrow + real functions + an in-process recording storage."""
+def _real_replay_predict(collector: bool, rows: int, L: int, threshold: int, with_storage: bool) -> tuple[int, list[int], str]:
+    """Real pyarrow + real functions + an in-process recording storage.
+
+    The real batch stands in the same relation to the threshold as the model batch: L == 0 is a zero-row int64
+    batch (rows == 0) or a batch with a null-typed column (rows > 0, no buffers); L > 0 is an int64 batch.
+    """
     from vgi_rpc.external import ExternalLocationConfig
     from vgi_rpc.rpc import OutputCollector
 
@@ -416,9 +661,16 @@ def _real_replay_predict(collector: bool, rows: int, threshold: int, with_storag
             ups.append(len(data))
             return "https://storage.invalid/b"
 
-    schema = _pa.schema([_pa.field("v", _pa.int64())])
-    batch = _pa.RecordBatch.from_pydict({"v": list(range(rows))}, schema=schema)
-    cfg = ExternalLocationConfig(storage=S() if with_storage else None, externalize_threshold_bytes=threshold, url_validator=None)  # type: ignore[arg-type]
+    if L == 0 and rows > 0:
+        schema = _pa.schema([_pa.field("v", _pa.null())])
+        batch = _pa.RecordBatch.from_arrays([_pa.array([None] * rows, type=_pa.null())], schema=schema)
+    else:
+        n = 0 if (L == 0 or rows == 0) else max(1, L // 8)
+        schema = _RSCHEMA
+        batch = _rbatch(n)
+    Lr = batch.get_total_buffer_size()
+    thr = threshold if Lr == L else (Lr if L >= threshold else Lr + 1)
+    cfg = ExternalLocationConfig(storage=S() if with_storage else None, externalize_threshold_bytes=thr, url_validator=None)  # type: ignore[arg-type]
     if collector:
         out = OutputCollector(schema)
         out.emit(batch)
@@ -427,31 +679,26 @@ def _real_replay_predict(collector: bool, rows: int, threshold: int, with_storag
     else:
         pred = ext.predict_externalize_bytes_for_batch(batch, cfg)
         ext.maybe_externalize_batch(batch, None, cfg)
-    return pred, ups
+    return pred, ups, f"{batch.num_rows}-row {schema.field(0).type} batch (logical size {Lr}), externalize_threshold_bytes={thr}"
 
 
 def _replay_predict_collector(args: dict) -> str | None:
-    # the logical size of an int64 batch is 8*rows: pick rows so that L and threshold stand in the same relation
-    L, T = args["L"], args["threshold"]
-    rows = 0 if L == 0 else max(1, L // 8)
-    thr = T if L == 8 * rows else (8 * rows if L >= T else 8 * rows + 1)
-    pred, ups = _real_replay_predict(True, rows, thr, args["with_storage"])
+    if not args["has_data"]:
+        return None
+    pred, ups, what = _real_replay_predict(True, 1 if args["L"] else 0, args["L"], args["threshold"], args["with_storage"])
     if (pred == 0) != (not ups):
-        return f"collector with a {rows}-row data batch (L={8 * rows}), threshold {thr}: predicted {pred} but uploads={ups}"
+        return f"collector holding a {what}: predict_externalize_bytes_for_collector = {pred} but maybe_externalize_collector uploaded {ups}"
     if ups and pred > ups[0]:
-        return f"prediction {pred} above uploaded {ups[0]}"
+        return f"prediction {pred} above uploaded {ups[0]} ({what})"
     return None
 
 
 def _replay_predict_batch(args: dict) -> str | None:
-    L, T = args["L"], args["threshold"]
-    rows = 0 if (L == 0 or args["rows"] == 0) else max(1, L // 8)
-    thr = T if L == 8 * rows else (8 * rows if L >= T else 8 * rows + 1)
-    pred, ups = _real_replay_predict(False, rows, thr, args["with_storage"])
+    pred, ups, what = _real_replay_predict(False, args["rows"], args["L"], args["threshold"], args["with_storage"])
     if (pred == 0) != (not ups):
-        return f"batch rows={rows} (L={8 * rows}), threshold {thr}: predicted {pred} but uploads={ups}"
+        return f"{what}: predict_externalize_bytes_for_batch = {pred} but maybe_externalize_batch uploaded {ups}"
     if ups and pred > ups[0]:
-        return f"prediction {pred} above uploaded {ups[0]}"
+        return f"prediction {pred} above uploaded {ups[0]} ({what})"
     return None
 
 
@@ -467,6 +714,8 @@ def predict_batch_matches_upload(L: int, gap: int, threshold: int, rows: int, wi
     post: _
     """
     reset()
+    if is_open("C16:predict-batch:zero-size-upload") and L == 0 and threshold <= 0:
+        return True
     cfg = Cfg(RecStorage() if with_storage else None, threshold)
     b = FBatch(SCHEMA, rows, L, L + gap)
     try:
@@ -616,6 +865,7 @@ def run_producer_turn(app, state):  # type: ignore[no-untyped-def]
     del HOLD["sinks"][:]
     del HOLD["starts"][:]
     del HOLD["uploads"][:]
+    del HOLD["uploads_L"][:]
     del HOLD["errors"][:]
     rsp._current_response_status.set(HTTPStatus.OK)
     outcome = FOutcome()
@@ -633,17 +883,9 @@ def _is_sentinel(entry) -> bool:  # type: ignore[no-untyped-def]
 # ---------------------------------------------------------------------------
 
 
-def _real_app(storage, threshold, wire_cap, ext_cap, service, impl):  # type: ignore[no-untyped-def]
-    from vgi_rpc.external import ExternalLocationConfig
-    from vgi_rpc.http._testing import make_sync_client
-    from vgi_rpc.rpc import RpcServer
-
-    server = RpcServer(service, impl, external_location=ExternalLocationConfig(storage=storage, externalize_threshold_bytes=threshold, url_validator=None))
-    return make_sync_client(server, token_key=b"0123456789abcdef0123456789abcdef", max_response_bytes=wire_cap, max_externalized_response_bytes=ext_cap)
-
-
 @cond(q=60, t=200, stubs=_STUBS_D, encoded=[aps._run_http_exchange_turn, aps._exchange_error_response, wire._flush_collector],
-      bound="one data batch (L, gap) + 0/1 log, threshold, both caps (or None), storage on/off; sizes 0..%d" % _SZ)
+      bound="one data batch (L, gap) + 0/1 log, threshold, both caps (or None), storage on/off; sizes 0..%d" % _SZ,
+      replay=_replay_exchange_caps, signature=lambda a, c: "C16:exchange:cap-exceeded")
 def exchange_response_within_caps(L: int, gap: int, nlog: bool, threshold: int, with_storage: bool,
                                   wire_cap: int, has_wc: bool, ext_cap: int, has_ec: bool, H: int, E: int) -> bool:
     """
@@ -671,7 +913,7 @@ def exchange_response_within_caps(L: int, gap: int, nlog: bool, threshold: int, 
         return kinds == ["error"] and rsp._current_response_status.get() == HTTPStatus.INTERNAL_SERVER_ERROR
     if has_wc and sink.pos > wire_cap:
         return False
-    if has_ec and sum(ups) > ext_cap:
+    if has_ec and _sum(ups) > ext_cap:
         return False
     # a successful body carries the data (or its pointer) exactly once, with the refreshed cursor
     return kinds.count("error") == 0 and (kinds.count("data") + kinds.count("pointer")) == 1 and len(HOLD["minted"]) == 1
@@ -706,17 +948,26 @@ class _FStats:
     pass
 
 
+class _FTime:
+    """Clock for the access-log duration only (CrossHair would make time.monotonic() a symbolic float)."""
+
+    @staticmethod
+    def monotonic() -> int:
+        return 0
+
+
 _unary = reglobalize(
     apu._run_unary_sync, CallStatistics=_FStats, _read_request=lambda s, v, c: ("m", {}), _deserialize_params=_noop,
     _validate_call_signature=_noop, _validate_params=_noop, _validate_result=_noop, _ClientLogSink=_FSinkLog,
     _get_auth_and_metadata=lambda: (None, {}), _emit_access_log=_noop, BytesIO=FSink, new_ipc_stream=f_new_ipc_stream,
     _build_result_batch=lambda schema, value: FBatch(schema, HOLD["rows"], HOLD["L"], HOLD["L"] + HOLD["gap"]),
-    _write_result_batch=_write_result, _write_error_batch=f_write_error_batch,
+    _write_result_batch=_write_result, _write_error_batch=f_write_error_batch, time=_FTime,
 )
 
 
 @cond(q=60, t=200, stubs=[*_STUBS_D, "request parsing / validation / access log := no-ops"], encoded=[apu._run_unary_sync, wire._write_result_batch],
-      bound="result batch (L, gap, rows 0..1), threshold, both caps (or None), storage on/off; sizes 0..%d" % _SZ)
+      bound="result batch (L, gap, rows 0..1), threshold, both caps (or None), storage on/off; sizes 0..%d" % _SZ,
+      replay=_replay_unary_caps, signature=lambda a, c: "C16:unary:cap-exceeded")
 def unary_response_within_caps(L: int, gap: int, rows: int, threshold: int, with_storage: bool,
                                wire_cap: int, has_wc: bool, ext_cap: int, has_ec: bool, H: int, E: int) -> bool:
     """
@@ -741,7 +992,7 @@ def unary_response_within_caps(L: int, gap: int, rows: int, threshold: int, with
         return status == HTTPStatus.INTERNAL_SERVER_ERROR and kinds == ["error"]
     if has_wc and sink.pos > wire_cap:
         return False
-    if has_ec and sum(ups) > ext_cap:
+    if has_ec and _sum(ups) > ext_cap:
         return False
     return kinds in (["data"], ["pointer"])
 
@@ -751,93 +1002,30 @@ def unary_response_within_caps(L: int, gap: int, rows: int, threshold: int, with
 # ---------------------------------------------------------------------------
 
 _TICKS = pick(2, 3)
+_SZP = pick(99, 999)  # every refusal message renders two of these numbers; CrossHair forks per digit count
 
 
 def _replay_producer_external(args: dict) -> str | None:
-    """Real server (falcon test client), real pyarrow, the repository's fake storage service over loopback HTTP.
-
-    A producer that emits one int64 batch whose logical size is <= cap but whose uploaded IPC stream is larger.
-    """
-    from dataclasses import dataclass
-    from typing import Protocol
-
-    from vgi_rpc.conformance.fake_storage import FakeStorageBackend, serve_in_thread
-    from vgi_rpc.http import http_connect
-    from vgi_rpc.rpc import CallContext, OutputCollector, ProducerState, Stream
-
-    schema = _pa.schema([_pa.field("v", _pa.int64())])
-    rows = 512  # L = 4096
-
-    @dataclass
-    class St(ProducerState):
-        done: bool = False
-
-        def produce(self, out: OutputCollector, ctx: CallContext) -> None:
-            if self.done:
-                out.finish()
-                return
-            self.done = True
-            out.emit(_pa.RecordBatch.from_pydict({"v": list(range(rows))}, schema=schema))
-
-    class Svc(Protocol):
-        def gen(self) -> Stream[St]: ...
-
-    class Impl:
-        def gen(self) -> Stream[St]:
-            return Stream(output_schema=schema, state=St())
-
-    base, shutdown = serve_in_thread()
-    try:
-        backend = FakeStorageBackend(base)
-        sizes: list[int] = []
-
-        class Counting:
-            def upload(self, data, sch, *, content_encoding=None):  # type: ignore[no-untyped-def]
-                sizes.append(len(data))
-                return backend.upload(data, sch, content_encoding=content_encoding)
-
-        L = 8 * rows
-        cap = L  # logical size fits the cap exactly; the framed upload does not
-        client = _real_app(Counting(), 1024, None, cap, Svc, Impl())
-        got_rows = 0
-        err = None
-        try:
-            with http_connect(Svc, client=client, external_location=_client_cfg()) as proxy:
-                for ab in proxy.gen():
-                    got_rows += ab.batch.num_rows
-        except Exception as e:  # noqa: BLE001
-            err = e
-        if err is None and sizes and sum(sizes) > cap:
-            return (f"producer turn with max_externalized_response_bytes={cap}: data batch of logical size {L} passed the pre-flight, "
-                    f"{sum(sizes)} bytes were uploaded to storage and the stream completed successfully ({got_rows} rows delivered)")
-        return None
-    finally:
-        shutdown()
-
-
-def _client_cfg():  # type: ignore[no-untyped-def]
-    from vgi_rpc.external import ExternalLocationConfig
-
-    return ExternalLocationConfig(url_validator=None)
+    """Real producer stream with as many ticks as the counterexample, caps on/next to the real logical and framed sizes."""
+    return _real_sweep("producer", [512] * max(1, min(3, args["n"])), fin_same=args["fin_same"], log=args["log0"])
 
 
 @cond(q=60, t=300, stubs=_STUBS_D, encoded=[aps._run_http_producer_turn, wire._flush_collector, ext.maybe_externalize_collector],
-      bound="<= %d ticks with (L, gap) each, log on the first, finish on the same/own tick, threshold, external cap; sizes 0..%d" % (_TICKS, _SZ),
+      bound="<= %d ticks with (L, gap) each, log on the first, finish on the same/own tick, threshold, external cap; sizes 0..%d" % (_TICKS, _SZP),
       replay=_replay_producer_external, signature=lambda a, c: "C16:producer:external-cap-framing-gap")
 def producer_turn_uploads_within_external_cap(n: int, L0: int, g0: int, L1: int, g1: int, L2: int, g2: int, log0: bool, fin_same: bool,
-                                              threshold: int, ext_cap: int, wire_cap: int, has_wc: bool) -> bool:
+                                              threshold: int, ext_cap: int, has_wc: bool) -> bool:
     """
-    pre: 1 <= n <= _TICKS and 0 <= L0 <= _SZ and 0 <= L1 <= _SZ and 0 <= L2 <= _SZ
-    pre: GAP_MIN <= g0 <= _SZ and GAP_MIN <= g1 <= _SZ and GAP_MIN <= g2 <= _SZ
-    pre: 0 <= threshold <= _SZ and 0 <= ext_cap <= _SZ and 0 <= wire_cap <= _SZ
+    pre: 1 <= n <= _TICKS and 0 <= L0 <= _SZP and 0 <= L1 <= _SZP and 0 <= L2 <= _SZP
+    pre: GAP_MIN <= g0 <= _SZP and GAP_MIN <= g1 <= _SZP and GAP_MIN <= g2 <= _SZP
+    pre: 0 <= threshold <= _SZP and 0 <= ext_cap <= _SZP
     post: _
     """
-    if is_open("C16:producer:external-cap-framing-gap"):
-        # carve exactly the listed site: a batch whose logical size passes the pre-flight while its framed size does not
-        pass
     reset()
     script = [(L0, g0, 1 if log0 else 0), (L1, g1, 0), (L2, g2, 0)][:n]
-    app = FApp(FServer(Cfg(RecStorage(), threshold)), wire_cap if has_wc else None, ext_cap)
+    # wire cap: None (one tick per turn) or generous (all ticks in one turn, so uploads accumulate); its own
+    # arithmetic is the subject of producer_turn_body_exceeds_cap_by_last_batch_only
+    app = FApp(FServer(Cfg(RecStorage(), threshold)), 10**9 if has_wc else None, ext_cap)
     state = ScriptState(script, fin_same)
     try:
         blob, outcome, starts, ups = run_producer_turn(app, state)
@@ -846,15 +1034,18 @@ def producer_turn_uploads_within_external_cap(n: int, L0: int, g0: int, L1: int,
     except Exception:  # noqa: BLE001
         return False
     if outcome.status == "error":
-        # refused: flagged, and whatever was uploaded before the refusal stayed within the cap
-        if rsp._current_response_status.get() != HTTPStatus.INTERNAL_SERVER_ERROR:
-            return False
-        return sum(ups) <= ext_cap or is_open("C16:producer:external-cap-framing-gap")
-    return sum(ups) <= ext_cap
+        # refused (not a successful response): must be flagged for the resource layer
+        return rsp._current_response_status.get() == HTTPStatus.INTERNAL_SERVER_ERROR
+    if _sum(ups) > ext_cap:
+        # known finding: the pre-flight sums logical sizes (lower bound) and nothing re-checks after the upload.
+        # With the finding listed as open, exactly that site is carved out: the logical sizes did fit.
+        return is_open("C16:producer:external-cap-framing-gap") and _sum(HOLD["uploads_L"]) <= ext_cap
+    return True
 
 
 @cond(q=60, t=300, stubs=_STUBS_D, encoded=[aps._run_http_producer_turn, wire._flush_collector],
-      bound="<= %d ticks with (L, gap) each, log on the first, wire cap int/None, no external storage; sizes 0..%d" % (_TICKS, _SZ))
+      bound="<= %d ticks with (L, gap) each, log on the first, wire cap int/None, no external storage; sizes 0..%d" % (_TICKS, _SZ),
+      replay=_replay_producer_body, signature=lambda a, c: "C16:producer:continues-at-or-over-wire-cap")
 def producer_turn_body_exceeds_cap_by_last_batch_only(n: int, L0: int, g0: int, L1: int, g1: int, L2: int, g2: int, log0: bool, fin_same: bool,
                                                       wire_cap: int, has_wc: bool, H: int, Z: int) -> bool:
     """
@@ -878,18 +1069,14 @@ def producer_turn_body_exceeds_cap_by_last_batch_only(n: int, L0: int, g0: int, 
     # every produce iteration after the first started below the cap (no cap: exactly one data iteration per turn)
     for s in starts[1:]:
         if not has_wc or not (s < wire_cap):
-            # a finish-only tick after the data is the one exception when there is no cap? no: the loop breaks first
             return False
     # so: body <= (cap - 1) + last iteration's batches + sentinel + EOS
     last_start = starts[-1]
-    tail = [e for e in blob.log]
     written_after = len(blob) - last_start
-    allowed = EOS
     seen_sentinel = 0
-    for e in tail:
-        if e[0] == "batch":
-            if _is_sentinel(e):
-                seen_sentinel += 1
+    for e in blob.log:
+        if _is_sentinel(e):
+            seen_sentinel += 1
     if seen_sentinel > 1:
         return False
     # bytes written since the last iteration began = that iteration's batches (+ sentinel) + EOS
@@ -900,5 +1087,5 @@ def producer_turn_body_exceeds_cap_by_last_batch_only(n: int, L0: int, g0: int, 
         last_flush = Lk + gk + (HOLD["LOGF"] if lg else 0)
     allowed = last_flush + seen_sentinel * Z + EOS
     if len(starts) == 1:
-        allowed = allowed + 0
+        allowed = allowed + H  # the schema message is written with the first batch
     return written_after == allowed and (len(starts) == 1 or last_start < wire_cap)
